@@ -50,7 +50,8 @@ CLAIMED = {
          "For SRT the hop itself is proved end to end on the writer and reader models (srt_hop: reading what the writer wrote returns one caption per written cue, "
          "in order, with the millisecond-truncated instants and the writer's text lines, for EVERY list of cues with visible text; srt_hop_instant ties it to coarsen), "
          "for WebVTT (vtt_hop: captions made of text lines of any characters come back with the same lines and the millisecond-truncated instants) "
-         "and for MicroDVD (mdvd_hop: same lines, instants truncated to whole frames of 1/25 s). "
+         "and for MicroDVD (mdvd_hop: same lines, instants truncated to whole frames of 1/25 s); for DFXP the stamp the writers print for an instant is read back "
+         "as that instant truncated to milliseconds (dfxp_hop_instant). "
          "Execution with pycaption's own readers: all 25 ordered pairs (125 triples in thorough) plus sampled longer chains, two passes, per-language "
          "(start, end, normalised text) compared after every hop with the sequentially coarsened original (SAMI: last cue = start + 4 s)."),
    ref="§3 C08", technique="Lean 4 proof (omega over nested grids, induction over the format chain) + end-to-end write/read theorems for SRT, WebVTT and MicroDVD (reader refinements, token-wise entity decoding) + exhaustive pair/triple execution with the real readers and writers",
@@ -120,7 +121,10 @@ CLAIMED = {
    text=("Same reader model, timing part, with exact rational times. Theorems: reading is rejected with the timing error iff some caption would be shown for "
          "0 < d < 0.05 s (flash_rejected_iff), a never-cleared final caption gets start+4 s and ended captions are untouched (tail4s_last, tail4s_keeps_ended), "
          "instants never go below zero for any offset (timeOf_floor_zero), the previous batch is closed at the new start exactly when it has no end or the gap is "
-         "< 5 frames + 1 us (store_joins_iff); the frame duration 1001000/30 us is regenerated and pinned. Correspondence and an independent timing denotation "
+         "< 5 frames + 1 us (store_joins_iff); the instant of a code word is, for a time code h:m:s:ff (non-drop) or h:m:s;ff (drop) with fields of any width and k "
+         "code words since the start of the line, (h*3600+m*60+s+(ff+k)/30) s - times 1001/1000 for non-drop-frame - minus the offset, floored at zero "
+         "(instant_nondrop, instant_drop); EVERY word of a line, whatever it is, advances the frame count by exactly one (word_counts_one_frame, "
+         "words_count_frames, by induction over the line) and the time recorded at the End-Of-Caption code is that instant (eoc_stamps_now); the frame duration 1001000/30 us is regenerated and pinned. Correspondence and an independent timing denotation "
          "(EOC instant, next EDM/EOC, joining, tail, flash) on programs with drop/non-drop timecodes, doubling, inline/separate/absent erase commands, filler gaps of 0-7 frames, offsets."),
    ref="§3 C06", technique="Lean 4 proof over the reader model + differential correspondence + independent timing oracle",
    note=NOTE_COMMON + "Implementation times are floats: compared within 2^-10 us. At a gap of exactly five frames (within 1 us) either reading is accepted; an end instant floored to exactly 0 is outside the domain (collides with the 0 = 'no end yet' encoding)."),
@@ -146,7 +150,9 @@ CLAIMED = {
          "xmlUnescape_escape, fuel-bounded single-pass decoder), escaped text contains neither '<' nor '>' so it cannot open or close markup "
          "(escape_no_angle); the WebVTT writer's replacement chain (regenerated from _encode_illegal_characters and pinned) is undone by a single-pass WebVTT "
          "character-reference decoder for every string (vtt_text_roundtrip) and its output contains neither '-->' nor '<', so no text can end its cue or open a tag "
-         "(vtt_text_cannot_end_cue). Executable models of the text-serialising functions of all writers (DFXP/single/legacy _recreate_text with the open_span "
+         "(vtt_text_cannot_end_cue); for every caption of text lines the paragraph content written by the DFXP writer model is the escaped lines joined by the "
+         "line-break markup, and cutting it there and decoding each piece gives the lines back - no text can create, hide or move a line break "
+         "(dfxp_lines_roundtrip; the SAMI and legacy DFXP models write the same content, sami_legacy_same_content). Executable models of the text-serialising functions of all writers (DFXP/single/legacy _recreate_text with the open_span "
          "state, SAMI _recreate_text, WebVTT _group_cues_by_layout and escaping, whole SRT and MicroDVD documents) are compared with the implementation; "
          "every writer's complete output is parsed by an independent conformant parser (lxml strict XML, html.parser, harness WebVTT/SRT/MicroDVD grammars) "
          "and must yield exactly the caption's lines per cue, for adversarial texts with optional empty lines."),
